@@ -41,6 +41,8 @@ def main():
                     pass
     finally:
         sh('git -C /repo checkout -- .')
+        # the regenerated terms are a cache of the translators' output on the tree that was just checked: back to the committed ones
+        sh('git -C /verif checkout -- coq/theories/Gen')
     out = os.path.join(d, 'detection_%s.json' % tier)
     old = json.load(open(out)) if os.path.exists(out) else {}
     old.update(results)
